@@ -219,6 +219,10 @@ func (p *puppetServer) twoway(ctx gorums.ServerCtx, method, val string) (int64, 
 	if h.Plan.Reply == "err" {
 		h.ErrCode, h.ErrMsg = h.Plan.Code, h.Plan.Msg
 		p.markReturn(h)
+		if h.Plan.ErrWithResp {
+			// `return resp, err` with a (partial, stale) response value: the node has failed all the same
+			return mkStamp(h.Tok, h.Srv, h.Inc, h.Serial, 0), true, status.Error(codes.Code(h.Plan.Code), h.Plan.Msg)
+		}
 		return 0, false, status.Error(codes.Code(h.Plan.Code), h.Plan.Msg)
 	}
 	st := mkStamp(h.Tok, h.Srv, h.Inc, h.Serial, 0)
@@ -252,6 +256,9 @@ func (p *puppetServer) stream(ctx gorums.ServerCtx, method, val string, send fun
 		h.Stamps = append(h.Stamps, st)
 		p.w.mu.Unlock()
 		if err := send(st); err != nil {
+			p.w.mu.Lock()
+			h.SendFailed++
+			p.w.mu.Unlock()
 			p.w.ev("h-stream-send-failed", "srv=%d ser=%d tok=%d i=%d err=%v", h.Srv, h.Serial, h.Tok, i, err)
 			p.markReturn(h)
 			return nil
